@@ -248,6 +248,9 @@ func (c *Ctx) specCall(name string, e *ast.CallExpr) (Value, bool) {
 		// sametable(a, b): slices equal element-wise including length
 		a := c.eval(e.Args[0])
 		b := c.eval(e.Args[1])
+		if a.Kind == KSlice && b.Kind == KSlice {
+			return Scalar(And(Eq(a.Len, b.Len), Eq(a.Arr, b.Arr)), boolT), true
+		}
 		return Scalar(valueEq(a, b), boolT), true
 	}
 	return Value{}, false
